@@ -385,12 +385,22 @@ def _snap(theta, scr):
         s["screen." + k] = copy.deepcopy(getattr(base, k))
     if hasattr(scr, "selection_vector"):
         s["subset.selection_vector"] = scr.selection_vector.copy()
+    # the attribute NAMES too: the sample's private parameters are its __dict__ (models/sparse_combo.py private_parameters_dict),
+    # so an attribute added by a prediction method (a memo) changes what ThetaHolder.save_h5 writes and what from_dicts accepts
+    s["screen.__dict__ keys"] = sorted(getattr(base, "__dict__", {}).keys())
+    if base is not scr:
+        s["subset.__dict__ keys"] = sorted(getattr(scr, "__dict__", {}).keys())
     return s
 
 
 def _snap_diff(before, theta, scr):
     after = _snap(theta, scr)
+    added = sorted(set(after) - set(before))
+    if added:
+        return added[0] + " (attribute added by the prediction)"
     for k, v in before.items():
+        if k not in after:
+            return k + " (attribute removed by the prediction)"
         w = after[k]
         if isinstance(v, np.ndarray):
             same = isinstance(w, np.ndarray) and v.shape == w.shape and v.dtype == w.dtype and np.array_equal(v, w)
@@ -572,9 +582,16 @@ def _pred_theta(desc, theta, scr, base):
                     if not _veq(a, _sel(b, single)):
                         return "%s of a pair with control differs from the single-agent prediction" % nm
         else:
+            lk = {(int(c), int(t)): float(v) for c, t, v in desc["theta"]["lookup"]}
             for i in range(n):
                 if -1 in tid[i] and mean[i] != 0.0:
                     return "interaction mean of a pair with control is not 0: row %d" % i
+                k1, k2 = (sid[i], tid[i][0]), (sid[i], tid[i][1])
+                if -1 in tid[i] and k1 in lk and k2 in lk:
+                    # no interaction term: the viability is the (clipped) product of the two single-effect table entries alone
+                    want = min(max(min(max(lk[k1] * lk[k2], 0.01), 0.99), 0.01), 0.99)
+                    if abs(viab[i] - want) > TOL * max(1.0, abs(want)):
+                        return "interaction viability of a pair with control is %r, not the clipped product of its single-effect entries %r: row %d" % (viab[i], want, i)
     if ok_base and s["arity"] == 1 and sparse:
         th = desc["theta"]
         for i in range(n):
